@@ -278,6 +278,13 @@ func init() {
 				for i := 0; i < nh; i++ {
 					cs = append(cs, fw.Case{ID: fmt.Sprintf("history/rand/%d", i), Kind: "history", P: map[string]any{"i": i}})
 				}
+				nfs := 40
+				if !ctx.Quick {
+					nfs = 1500
+				}
+				for i := 0; i < nfs; i++ {
+					cs = append(cs, fw.Case{ID: fmt.Sprintf("frishape/%d", i), Kind: "frishape", P: map[string]any{"i": i}})
+				}
 				for _, n := range instNames(ctx.Quick) {
 					cs = append(cs, fw.Case{ID: "transcript/" + n, Kind: "transcript", P: map[string]any{"inst": n}})
 					nr := 2
@@ -337,6 +344,98 @@ func init() {
 						o.Trivial = c.Kind == "history" && len(h) == 0
 					}
 					o.Sample = map[string]any{"ops": len(h), "challenges": len(want)}
+				case "frishape":
+					// GetFriChallenges on random shapes: 0..4 commit-phase caps of 1..16 entries, final
+					// polynomial of 0..20 coefficients, 0..40 query indices, after a random prefix
+					pre := genHistory(r, r.Intn(12))
+					ncaps := r.Intn(5)
+					caps := make([][]*big.Int, ncaps)
+					for i := range caps {
+						caps[i] = make([]*big.Int, 1+r.Intn(16))
+						for j := range caps[i] {
+							caps[i][j] = randBig(r, bigR)
+						}
+					}
+					fp := make([]ref.E, r.Intn(21))
+					for i := range fp {
+						fp[i] = randE(r)
+					}
+					pow := randGL(r)
+					nq := r.Intn(41)
+					var flat []frontend.Variable
+					res := harnRunOpt(engine.Options{Face: engine.Native}, func(api frontend.API) error {
+						c := challenger.NewChip(api)
+						for _, op := range pre {
+							if len(op.Vals) > 0 {
+								vs := make([]gl.Variable, len(op.Vals))
+								for i := range vs {
+									vs[i] = gl.NewVariable(op.Vals[i])
+								}
+								c.ObserveElements(vs)
+							}
+							if op.Op == "get" {
+								c.GetChallenge()
+							}
+						}
+						var vcaps []variables.FriMerkleCap
+						for _, cp := range caps {
+							vc := make(variables.FriMerkleCap, len(cp))
+							for j := range cp {
+								vc[j] = cp[j]
+							}
+							vcaps = append(vcaps, vc)
+						}
+						fc := c.GetFriChallenges(vcaps, variables.PolynomialCoeffs{Coeffs: qes(fp)}, gl.NewVariable(pow), types.FriConfig{NumQueryRounds: uint64(nq)})
+						flat = append(flat, fc.FriAlpha[0].Limb, fc.FriAlpha[1].Limb)
+						for _, b := range fc.FriBetas {
+							flat = append(flat, b[0].Limb, b[1].Limb)
+						}
+						flat = append(flat, fc.FriPowResponse.Limb)
+						for _, q := range fc.FriQueryIndices {
+							flat = append(flat, q.Limb)
+						}
+						return nil
+					})
+					o.Events += events(res) + 1
+					if res.Verdict != engine.Accept {
+						return fw.Violate("get_fri_challenges_failed", fmt.Sprintf("caps=%d final=%d queries=%d: %s", ncaps, len(fp), nq, resStr(res)))
+					}
+					rc := ref.NewChallenger()
+					for _, op := range pre {
+						if len(op.Vals) > 0 {
+							rc.ObserveElements(op.Vals)
+						}
+						if op.Op == "get" {
+							rc.GetChallenge()
+						}
+					}
+					var want []uint64
+					a := rc.GetExt()
+					want = append(want, a[0], a[1])
+					for _, cp := range caps {
+						for _, h := range cp {
+							var e fr.Element
+							e.SetBigInt(h)
+							rc.ObserveBNHash(e)
+						}
+						b := rc.GetExt()
+						want = append(want, b[0], b[1])
+					}
+					rc.ObserveExts(fp)
+					rc.ObserveElement(pow)
+					want = append(want, rc.GetChallenge())
+					want = append(want, rc.GetN(nq)...)
+					if len(flat) != len(want) {
+						return fw.Violate("challenge_count", fmt.Sprintf("fri challenges: %d vs %d (caps=%d queries=%d)", len(flat), len(want), ncaps, nq))
+					}
+					for i := range want {
+						if engine.Value(flat[i]).Uint64() != want[i] {
+							return fw.Violate("wrong_fri_challenge", fmt.Sprintf("caps=%d final=%d queries=%d: value #%d circuit %s reference %d", ncaps, len(fp), nq, i, engine.Value(flat[i]), want[i]))
+						}
+					}
+					o.Add("challenges_compared", len(want))
+					o.Inc("fri_shapes_checked")
+					o.Sample = map[string]any{"caps": ncaps, "final_poly": len(fp), "queries": nq}
 				case "transcript", "randtranscript", "influence":
 					in := getInst(c.Str("inst")).Clone()
 					var changedKind string
